@@ -398,6 +398,8 @@ fn sem_operand(s: &mut Src, depth: usize) -> String {
                 "Array<{ a: T0 }>", "readonly [T0, T1]",
                 // recursive named types of every container kind (declared by sem_file), incl. ones without finite values
                 "R0", "R1", "R2", "R4", "R5", "R6", "R7", "R0 | null", "R1 | string", "[R2, R1]",
+                // ... and ones whose own body mentions them inside an intersection, a utility type or a discriminated union
+                "R8", "R9", "R10", "R11", "R8 | null", "R9 | string", "R11 | null",
             ])
             .to_string();
     }
@@ -423,6 +425,7 @@ fn sem_file(s: &mut Src) -> String {
     out.push_str(&format!("type T1 = {};\n", sem_operand(s, 1)));
     out.push_str("type K0 = \"a\" | \"b\";\ntype K1 = K0;\n");
     out.push_str("type R0 = [string, R0];\ntype R1 = { next: R1 | null; v: string };\ntype R2 = [R3];\ntype R3 = [R2];\ntype R4 = R4[];\ntype R5 = { [k: string]: R5 };\ntype R6 = Map<string, R6>;\ntype R7 = { a: R7 } | { b: R0 };\n");
+    out.push_str("type R8 = { v: string; children: (R8 & { parent: string })[] };\ntype R9 = { a: R9 | null } & { b: string };\ntype R10 = { p?: Partial<R10>; q: number };\ntype R11 = { kind: \"n\"; left: R11; right: R11 } | { kind: \"l\"; v: number };\n");
     let n = s.range(1, 3);
     let mut ps = vec![];
     for i in 0..n {
